@@ -812,7 +812,8 @@ impl Part for E3b {
         for s in 0..self.scen.len() {
             for &b in &self.bounds {
                 // the deepest bound only for the smaller scenarios (schedules grow as points^bound)
-                let small = ["X1", "X2", "Y3", "Z "].iter().any(|p| self.scen[s].name.starts_with(p));
+                // bound 3 for every two-thread scenario; the three-thread one stops at 2
+                let small = self.scen[s].bodies.len() <= 2;
                 if b >= 3 && !small {
                     continue;
                 }
